@@ -484,7 +484,11 @@ def _deactivate_deleted_active_elements(soup):
 
 def get_title(soup):
     "Get the title of a Beautiful Soup document."
-    return soup.title and soup.title.string or ''
+    for title in soup.find_all('title'):
+        # The `<title>` of an embedded SVG is a tooltip, not the page's title.
+        if not title.find_parent(['svg', 'math']):
+            return title.string or ''
+    return ''
 
 
 def _html_for_dmp_operation(operation):
